@@ -8,6 +8,11 @@ Local Open Scope Z_scope.
 Definition calc_projected (reserved : Z) (inputs : list Z) (operation output : Z) (rcopies wcopies : Z) : Z :=
   fold_left (fun acc i => acc + i * rcopies + i) inputs reserved + operation + output + output * wcopies.
 
+(* general_blockwise: the projected memory of an ordinary operation from the chunk memories of its inputs (array_memory(dtype, largest chunk))
+   and of the chunks it writes to each of its outputs (array_memory(dtype, write chunk size)) *)
+Definition blockwise_projected (reserved extra rcopies wcopies : Z) (ins outs : list Z) : Z :=
+  calc_projected reserved ins extra (fold_left Z.max outs 0) rcopies wcopies.
+
 (* MemoryModeller *)
 Record mm := { cur : Z; peak : Z }.
 Definition mm0 : mm := {| cur := 0; peak := 0 |}.
